@@ -386,7 +386,7 @@ def compare(inst: Instance, refs: List[RefArray], ref_constraints: Callable[[], 
             ) -> Tuple[bool, str]:
     """(equal?, description of the first difference)"""
     fold0 = Canon({}).fold
-    want = sorted((c for c in (fold0(x) for x in ref_constraints()) if c != ("c", True)), key=repr)
+    want = sorted({c for c in (fold0(x) for x in ref_constraints()) if c != ("c", True)}, key=repr)
     best = None
     cands = match_arrays(inst, refs)
     if not cands:
@@ -398,6 +398,7 @@ def compare(inst: Instance, refs: List[RefArray], ref_constraints: Callable[[], 
         names.update(user_names(inst))
         cn = Canon(names)
         got = sorted((c for c in (cn.fold(cn.term(t)) for t in inst.constraints()) if c != ("c", True)), key=repr)
+        got = sorted(set(got), key=repr)
         if got == want:
             LAST_MATCH.clear()
             LAST_MATCH.update(names)
@@ -514,6 +515,20 @@ def projection(inst: Instance, user_ids: List[int], budget_s: float = 4.0) -> Op
         vars_of(c, acc)
         cvars.append(acc)
     aux_ids = [i for i in doms if i not in user_ids]
+    # static ordering: next the variable that completes the most constraints (ties: smaller domain)
+    ordered: List[int] = []
+    have = set(user_ids)
+    rest_v = set(aux_ids)
+    while rest_v:
+        def gain(v: int) -> Tuple[int, int, int]:
+            done = sum(1 for vs in cvars if v in vs and vs <= have | {v})
+            near = sum(1 for vs in cvars if v in vs and len(vs - have) <= 2)
+            return (done, near, -len(doms[v]))
+        best = max(sorted(rest_v), key=gain)
+        ordered.append(best)
+        have.add(best)
+        rest_v.discard(best)
+    aux_ids = ordered
     t0 = time.time()
 
     class Den:
